@@ -182,3 +182,12 @@ fn lone_leader_dropped_key_reusable() {
     std::mem::forget(next);
     std::mem::forget(s);
 }
+
+/// C20 readiness clause for coalesce: see svc::check_readiness_passthrough.
+#[kani::proof]
+#[kani::unwind(4)]
+fn readiness_passthrough() {
+    let (mut s, _script) = mk();
+    svc::check_readiness_passthrough(&mut s);
+    std::mem::forget(s);
+}
